@@ -396,6 +396,9 @@ func runLifeMode(mode string, r *vlib.Rand, keys map[string]struct{}) {
 				c.Rotate = false
 			}
 		}
+		if !vsys.Shimmed && o.shutdownFrom == "accept-error" {
+			o.shutdownFrom = "Engine.Stop" // the plain build (strace job) has no shim to inject the accept4 failure with
+		}
 		if f := os.Getenv("VERIF_LIFE_FORCE"); f != "" { // debugging aid: "source=accept-error,reuseport,loops=1,moment=idle"
 			for _, kv := range strings.Split(f, ",") {
 				switch {
